@@ -164,3 +164,51 @@ def share(check, repo, fn, new_rule, title=None, keep=None, args=()):
         return rr
     wrapped.__name__ = getattr(fn, '__name__', 'shared') + '->' + new_rule
     check.run_rule(wrapped, repo)
+
+
+def call_sites(repo, name):
+    """[(FuncInfo of the caller, ast.Call)] for every call `name(...)` / `<anything>.name(...)` in the repository (by simple name:
+    an over-approximation of the callers of a function or method called `name`)."""
+    out = []
+    for fi in repo.all_funcs():
+        for call in effects(fi).calls:
+            f = call.func
+            if (isinstance(f, ast.Name) and f.id == name) or (isinstance(f, ast.Attribute) and f.attr == name):
+                out.append((fi, call))
+    return out
+
+
+def mentions(repo, name):
+    """Functions that mention `name` other than by calling it (a method value handed around: functools.partial(self.name), getattr)."""
+    out = []
+    for fi in repo.all_funcs():
+        called = set(id(c.func) for c in effects(fi).calls)
+        for n in ast.walk(fi.node):
+            if id(n) in called:
+                continue
+            if (isinstance(n, ast.Attribute) and n.attr == name) or (isinstance(n, ast.Constant) and n.value == name):
+                out.append(fi)
+                break
+    return out
+
+
+def owner_closure(repo, cls_name, designated):
+    """The designated methods of a class plus its private helpers (`_name`, defined in the same class) that are reachable only from
+    that set: extracting part of a designated method into a private helper does not change who may do what."""
+    if not repo.has_cls(cls_name):
+        return set(designated)
+    cls = repo.cls(cls_name)
+    allowed = set(designated)
+    changed = True
+    while changed:
+        changed = False
+        for name, fi in cls.methods.items():
+            if name in allowed or not name.startswith('_') or name.startswith('__'):
+                continue
+            sites = call_sites(repo, name)
+            if not sites or mentions(repo, name):
+                continue
+            if all(c.cls is not None and c.cls.name == cls_name and c.name in allowed for c, _ in sites):
+                allowed.add(name)
+                changed = True
+    return allowed
